@@ -43,10 +43,15 @@ func NewHTTPResponseBody(
 			return HTTPResponseBody{}, adoptErrorForResponseBody(d, err)
 		}
 	case SerializeFormatPlainString:
-		s, err = NewExchangeRegexSchema(b)
+		rs, err := NewExchangeRegexSchema(b)
+		if err == nil {
+			// The regular expression is compiled lazily, it has to be checked here.
+			err = rs.Check()
+		}
 		if err != nil {
 			return HTTPResponseBody{}, adoptErrorForResponseBody(d, err)
 		}
+		s = rs
 	default:
 		s = NewExchangePseudoSchema(sn)
 	}
